@@ -156,6 +156,11 @@ func zip(ss, rr []string) []string {
 	return qq
 }
 
+// withLast joins the values and a last one with commas; there may be no values.
+func withLast(values []string, last string) string {
+	return strings.Join(append(append([]string{}, values...), last), ", ")
+}
+
 func (g *gen) genError(typs []types.Type) error {
 	p := g.printer
 	g.Generating(typs...)
@@ -198,14 +203,14 @@ func (g *gen) genError(typs []types.Type) error {
 	p.P("return func(%s) %s {", strings.Join(firstVarTypes, ", "), wrap(strings.Join(resultStrs[len(resultStrs)-1], ", ")))
 	p.In()
 	for i := range params {
-		p.P("%s, err%d := %s(%s)", strings.Join(vars[i+1], ", "), i, fs[i], strings.Join(vars[i], ", "))
+		p.P("%s := %s(%s)", withLast(vars[i+1], "err"+strconv.Itoa(i)), fs[i], strings.Join(vars[i], ", "))
 		p.P("if err%d != nil {", i)
 		p.In()
-		p.P("return %s, err%d", strings.Join(zeros, ", "), i)
+		p.P("return %s", withLast(zeros, "err"+strconv.Itoa(i)))
 		p.Out()
 		p.P("}")
 	}
-	p.P("return %s, nil", strings.Join(vars[len(vars)-1], ", "))
+	p.P("return %s", withLast(vars[len(vars)-1], "nil"))
 	p.Out()
 	p.P("}")
 	p.Out()
